@@ -125,7 +125,28 @@ def check_tmn(inp, res, err):
     return [] if bool(res) == exp else [f"result != spec {exp}"]
 
 
+def call_polya_mod(inp):
+    from dnaio import SequenceRecord
+    from cutadapt.modifiers import PolyATrimmer
+    from cutadapt.info import ModificationInfo
+    m = PolyATrimmer(revcomp=inp["revcomp"])
+    r = SequenceRecord("r", inp["s"], "".join(chr(33 + (i % 40)) for i in range(len(inp["s"]))))
+    out = m(r, ModificationInfo(r))
+    return [out.sequence, out.qualities, {int(k): v for k, v in m.trimmed_bases.items() if v}]
+
+
+def check_polya_mod(inp, res, err):
+    if err:
+        return ["no_raise:" + err]
+    s = inp["s"]
+    q = "".join(chr(33 + (i % 40)) for i in range(len(s)))
+    i = ref_polya(s, inp["revcomp"])
+    exp = [s[i:], q[i:], {i: 1}] if inp["revcomp"] else [s[:i], q[:i], {len(s) - i: 1}]
+    return [] if res == exp else [f"modifier gives {res}, the statement gives {exp}"]
+
+
 RUNTIME = {
+    "PolyATrimmer": {"gen": gen_polya, "call": call_polya_mod, "check": check_polya_mod, "bounds": "random sequences of length <= 33, both read ends"},
     "poly_a_trim_index": {"gen": gen_polya, "call": call_polya, "check": check_polya, "bounds": "random sequences of length <= 33"},
     "expected_errors": {"gen": gen_ee, "call": call_ee, "check": check_ee, "bounds": "random quality strings of length <= 17"},
     "NEndTrimmer": {"gen": gen_nend, "call": call_nend, "check": check_nend, "bounds": "random sequences of length <= 9"},
